@@ -2,6 +2,8 @@
 
 package jsonata
 
+import "reflect"
+
 // ---------------------------------------------------------------------------------------------
 // C13 — order-by and $sort return stable, correctly ordered permutations.
 // ---------------------------------------------------------------------------------------------
@@ -279,6 +281,60 @@ func VerifH_C13_SortFunc() {
 	if ok {
 		c13CheckOrder(ids, items, []c13Term{{"k", false}}, "sortfn")
 	}
+}
+
+// VerifH_C13_SortFuncScalars: a comparator governs $sort also when the array holds only numbers or
+// only strings: with f(x, y) = x < y the result is the non-increasing permutation of the input; with
+// a comparator on string length the result is ordered by length and stable.
+func VerifH_C13_SortFuncScalars() {
+	if verifChoose(2) == 0 {
+		n := 1 + verifChoose(verifParam("N", 3))
+		in := make([]float64, n)
+		arr := make([]interface{}, n)
+		for i := range arr {
+			in[i] = hFinite()
+			arr[i] = in[i]
+		}
+		got := hEval("$sort(nums, function($x, $y) { $x < $y })", map[string]interface{}{"nums": arr})
+		verifAssert(got.kind == oValue, "sortfn-scalars-evaluates")
+		if got.kind != oValue {
+			return
+		}
+		out, ok := got.val.([]interface{})
+		if n == 1 {
+			if f, isF := got.val.(float64); isF {
+				out, ok = []interface{}{f}, true
+			}
+		}
+		verifAssert(ok && len(out) == n, "sortfn-scalars-shape")
+		if !ok || len(out) != n {
+			return
+		}
+		used := make([]bool, n)
+		for i := range out {
+			f, isF := out[i].(float64)
+			verifAssert(isF, "sortfn-scalars-number")
+			if i > 0 {
+				verifAssert(out[i-1].(float64) >= f, "sortfn-scalars-comparator-order")
+			}
+			found := false
+			for j := range in {
+				if !used[j] && in[j] == f && !found {
+					used[j], found = true, true
+				}
+			}
+			verifAssert(found, "sortfn-scalars-permutation")
+		}
+		return
+	}
+	type tc struct {
+		in   []interface{}
+		want []interface{}
+	}
+	cases := []tc{{[]interface{}{"b", "ccc", "aa"}, []interface{}{"b", "aa", "ccc"}}, {[]interface{}{"bb", "a", "cc", "d"}, []interface{}{"a", "d", "bb", "cc"}}, {[]interface{}{"zz", "y"}, []interface{}{"y", "zz"}}}
+	c := cases[verifChoose(len(cases))]
+	got := hEval("$sort(strs, function($x, $y) { $length($x) > $length($y) })", map[string]interface{}{"strs": c.in})
+	verifAssert(got.kind == oValue && reflect.DeepEqual(got.val, interface{}(c.want)), "sortfn-strings-by-length-stable")
 }
 
 // VerifH_C13_StableLong: stability beyond the library's small-slice regime: N items with two-valued
